@@ -13,6 +13,7 @@ from props import _stateful as S
 from props import _wrapexact as W
 from props import _osexact as X
 from props import _handles as HD
+from props import _ftp as F
 
 EXTRA_PROOF_MODULES = ("FsProofs.MemRefines", "FsProofs.WrapRefines", "FsProofs.OsRefines", "FsProofs.HandleLaws")
 
@@ -99,8 +100,11 @@ def run(rep, tier, seed, deep=False):
         "directory sizes, timestamps and listing order are outside the observable tree",
         "mount points are fixtures of a MountFS (removing/moving them is steered around)",
         "exists/isdir/isfile may answer False instead of raising on an invalid path",
-        "FTPFS is not explored (needs a server); OSFS behaviour is the kernel's, modelled by FsModel/Posix.lean "
-        "(no symlinks, no permissions, one device) and compared with the kernel on every run",
+        "OSFS behaviour is the kernel's, modelled by FsModel/Posix.lean (no symlinks, no permissions, one device) and "
+        "compared with the kernel on every run",
+        "FTPFS (thorough tier only): against a loopback pyftpdlib 1.5.10 server, MLSD and LIST variants; names with CR/LF, "
+        "';', '=' or leading/trailing blanks are exercised by directed cases only (open findings / LIST ambiguity); "
+        "connection errors are infrastructure (retried on a fresh server, exit 2 when the server is unhealthy)",
     ]
     try:
         steps = S.collect(S.WRITABLE, n_hist, n_ops, rng)
@@ -132,6 +136,12 @@ def run(rep, tier, seed, deep=False):
         # file objects kept open ACROSS filesystem calls, several handles on one file, files removed / moved /
         # overwritten while open: whole histories against FsModel.Handles (FsProofs/HandleLaws.lean)
         HD.check_handles(rep, drv, vlib.rng_for(seed, "c01-handles"), tier)
+        if not quick:
+            # FTPFS against a loopback pyftpdlib server, MLSD and LIST variants (thorough tier only: ~100x slower
+            # than the in-memory backends): histories, a sample of the exhaustive small scope, one directed case per
+            # open FTPFS finding; every step also cross-checked against the server's directory seen through the OS
+            fsteps = F.run_ref_level(rep, drv, vlib.rng_for(seed, "c01-ftp"), judge, "C01", 60 * (3 if deep else 1), 15, 1200)
+            rep.programs += len(set(s.hist_id for s in fsteps))
         rep.sample({"backend": steps[0].kind, "op": H.op_json(steps[0].op), "impl": list(steps[0].impl[:2])})
         for s in steps[1::max(1, len(steps) // 5)][:5]:
             rep.sample({"backend": s.kind, "pre": [e[:2] for e in s.pre][:6], "op": H.op_json(s.op), "impl": list(s.impl[:2])})
@@ -152,6 +162,16 @@ def replay(rep, case):
         return HD.replay(rep, case)
     kind, pre, op = H.case_to_step(case["case"])
     op = H.fix_op_bytes(op)
+    if kind in H.FTP_KINDS:
+        try:
+            s = F.one_step(kind, pre, op, 0)
+        finally:
+            H.cleanup_scratch()
+        m = H.model_replies(vlib.Driver(), [s])[0]
+        print("impl:", s.impl[:2], "model:", m[0], "known-class:", F.known_class(s, m), "disk:", F.disk_mismatch(s))
+        if F.known_class(s, m) is None:
+            judge(rep, s, m)
+        return 1 if (rep.violations or F.known_class(s, m) or F.disk_mismatch(s)) else 0
     b = H.build_state(kind, pre)
     try:
         pre2 = H.snapshot(b.fs)
